@@ -43,6 +43,11 @@ EXTERNAL = {
     "pandas.DataFrame": _frame,
     "pandas.Series": lambda *a, **k: _series(*a, **k),
     "pandas.concat": lambda *a, **k: _concat(*a, **k),
+    "numpy.isnan": lambda x: isinstance(x, float) and x != x,
+    "numpy.isinf": lambda x: isinstance(x, float) and x in (float("inf"), float("-inf")),
+    "math.isnan": lambda x: isinstance(x, float) and x != x,
+    "math.isinf": lambda x: isinstance(x, float) and x in (float("inf"), float("-inf")),
+    "collections.OrderedDict": dict,
     "re.compile": lambda *a, **k: __import__("re").compile(*a, **k),
     "re.escape": lambda *a, **k: __import__("re").escape(*a, **k),
     "operator.attrgetter": lambda *a: __import__("operator").attrgetter(*a),
@@ -100,8 +105,9 @@ class FuncRef:
 class Closure:
     """A nested function together with the environment it was defined in."""
 
-    def __init__(self, fn: FuncInfo, env: Dict[str, Any]):
+    def __init__(self, fn: FuncInfo, env: Dict[str, Any], defaults: Optional[Dict[str, Any]] = None):
         self.fn, self.env = fn, env
+        self.defaults = dict(defaults or {})  # evaluated when the function was defined (early binding)
 
 
 class Interp:
@@ -117,7 +123,7 @@ class Interp:
         self.module_globals: Dict[str, Dict[str, Any]] = {}
 
     # ------------------------------------------------------------------ calling
-    def bind(self, fn: FuncInfo, args: Sequence[Any], kwargs: Dict[str, Any], selfobj=None) -> Dict[str, Any]:
+    def bind(self, fn: FuncInfo, args: Sequence[Any], kwargs: Dict[str, Any], selfobj=None, defaults: Optional[Dict[str, Any]] = None) -> Dict[str, Any]:
         a = fn.node.args
         pos = [x.arg for x in a.posonlyargs + a.args]
         env: Dict[str, Any] = {}
@@ -144,6 +150,9 @@ class Interp:
         if a.kwarg:
             env[a.kwarg.arg] = extra
         for p in fn.params:
+            if p not in env and defaults and p in defaults:
+                env[p] = defaults[p]
+        for p in fn.params:
             if p not in env:
                 d = fn.param_default(p)
                 if d is None:
@@ -169,7 +178,15 @@ class Interp:
         nested = ev.fn.nested.get(node.name)
         if nested is None:
             raise Unknown(f"nested function {node.name} is not in the program model")
-        return Closure(nested, ev.env)
+        a = node.args
+        names = [x.arg for x in a.posonlyargs + a.args]
+        defaults = {}
+        for n, d in zip(names[len(names) - len(a.defaults):], a.defaults):
+            defaults[n] = ev.eval(d)
+        for x, d in zip(a.kwonlyargs, a.kw_defaults):
+            if d is not None:
+                defaults[x.arg] = ev.eval(d)
+        return Closure(nested, ev.env, defaults)
 
     def on_name(self, ev, e: ast.Name):
         sym = self.prog.resolve(ev.fn.unit, e.id)
@@ -183,6 +200,11 @@ class Interp:
             v = g[-1]
             if isinstance(v, ast.Constant):
                 return v.value
+            if isinstance(v, (ast.List, ast.Tuple, ast.Dict, ast.Set)):
+                try:
+                    return ast.literal_eval(v)
+                except (ValueError, SyntaxError):
+                    pass
             if isinstance(v, ast.Call) and norm(v.func) == "re.compile" and v.args and all(isinstance(a, ast.Constant) for a in v.args) and not v.keywords:
                 import re as _re
 
@@ -194,20 +216,20 @@ class Interp:
         if isinstance(target, PartialRef):
             return self.call_value(target.target, list(target.args) + list(args), {**target.kwargs, **kwargs}, ev, node)
         if isinstance(target, Closure):
-            return self.call(target.fn, args, kwargs, outer_env=target.env)
+            return self.call(target.fn, args, kwargs, outer_env=target.env, defaults=target.defaults)
         if isinstance(target, FuncRef):
             if target.fn.qualname in self.stubs:
                 return self.stubs[target.fn.qualname](self, ev, node, list(args), dict(kwargs))
             return self.call(target.fn, args, kwargs)
         raise Unknown("call of a value that is not a function of the package")
 
-    def call(self, fn: FuncInfo, args: Sequence[Any] = (), kwargs: Optional[Dict[str, Any]] = None, selfobj=None, outer_env: Optional[Dict[str, Any]] = None):
+    def call(self, fn: FuncInfo, args: Sequence[Any] = (), kwargs: Optional[Dict[str, Any]] = None, selfobj=None, outer_env: Optional[Dict[str, Any]] = None, defaults: Optional[Dict[str, Any]] = None):
         self.depth += 1
         try:
             if self.depth > self.max_depth:
                 raise Unknown("call depth exceeded")
             env = dict(outer_env or {})
-            env.update(self.bind(fn, list(args), dict(kwargs or {}), selfobj))
+            env.update(self.bind(fn, list(args), dict(kwargs or {}), selfobj, defaults))
             self.calls.append((fn.qualname, dict(env)))
             ev = self.evaluator(env, fn)
             body = [s for s in fn.node.body if not (isinstance(s, ast.Expr) and isinstance(s.value, ast.Constant))]
@@ -230,6 +252,10 @@ class Interp:
             except KeyError:
                 raise EvalRaise("KeyError", e)
         if isinstance(base, tuple) and hasattr(base, "_fields") and e.attr in base._fields:
+            return getattr(base, e.attr)
+        if isinstance(base, (str, int, float, bool, tuple, list, dict, set, frozenset, type(None))) and e.attr == "__class__":
+            return type(base)
+        if isinstance(base, type) and e.attr in ("__name__", "__qualname__"):
             return getattr(base, e.attr)
         if isinstance(base, (str, int, float, bool, tuple, list, dict, set, frozenset, type(None))) and not hasattr(base, e.attr):
             raise EvalRaise("AttributeError", e)
